@@ -69,10 +69,14 @@ structure DelayObs where
 
 /-- replies that arrive clearly inside the delay (the harness keeps away from the boundary) -/
 def DelayObs.due (o : DelayObs) : List Nat :=
-  let limit := match o.parent with
-    | some p => min p o.delay
-    | none => o.delay
-  (o.results.filter fun (t, _) => 10 * t ≤ 8 * limit).map (·.2)
+  -- A Ctrl-C inside the delay may drop records that are still queued (the logger's select may take the
+  -- ctx branch: C12 only promises complete records, and C16's theorem is for runs without Ctrl-C), so
+  -- replies are DUE only when the delay ran its course.  The margin to the end of the delay is 20 %,
+  -- at least 120 ms (scheduling under load).
+  match o.parent with
+  | some p => if p < o.delay then [] else
+      (o.results.filter fun (t, _) => 10 * t ≤ 8 * o.delay && t + 120 ≤ o.delay).map (·.2)
+  | none => (o.results.filter fun (t, _) => 10 * t ≤ 8 * o.delay && t + 120 ≤ o.delay).map (·.2)
 
 def subsetOnce (a b : List Nat) : Bool := a.all fun x => a.count x == 1 && b.contains x
 
